@@ -2393,6 +2393,14 @@ class MiniGen:
         n = MINI_HELPERS[f][1] if rng.random() < 0.95 else 1 + (MINI_HELPERS[f][1] % 2)
         return ("call", f, [self.expr(defined, depth - 1) for _ in range(n)])
 
+    def expr_noite(self, defined, depth):
+        e = self.expr(defined, depth)
+        for _ in range(6):
+            if "'ite'" not in repr(e):
+                return e
+            e = self.expr(defined, depth)
+        return ("var", self.rng.choice(defined))
+
     def block(self, defined, nvars, budget, depth):
         """returns (stmts, defined_after or None if the block always returns)"""
         rng = self.rng
@@ -2415,6 +2423,36 @@ class MiniGen:
             elif r < 0.36 and depth < 2:
                 out.append(("ret", self.expr(defined, 2)))
                 return out, None
+            elif r < 0.42 and depth > 0:
+                x = nvars[0]
+                nvars[0] += 1
+                seqs = [y for y in defined if self.seqish.get(y)]
+                rr = rng.random()
+                if seqs and rr < 0.55:
+                    it = ("var", rng.choice(seqs))
+                elif rr < 0.9:
+                    it = (rng.choice(["tup", "lst"]), [self.expr(defined, 1) for _ in range(rng.choice([0, 1, 2, 2, 3]))])
+                else:
+                    it = self.expr(defined, 2)
+                self.seqish[x] = False
+                inner = defined + [x]
+                if rng.random() < 0.8:
+                    # a simple body: assignments / unpackings without conditional expressions
+                    body = []
+                    for _ in range(rng.choice([1, 1, 2, 3])):
+                        y = rng.choice([v for v in inner if v != x]) if rng.random() < 0.6 else nvars[0]
+                        if y == nvars[0]:
+                            nvars[0] += 1
+                        e = self.expr_noite(inner, 2)
+                        body.append(("asg", y, e))
+                        self.seqish[y] = e[0] in ("tup", "lst")
+                        if y not in inner:
+                            inner.append(y)
+                else:
+                    body, _ = self.block(inner, nvars, budget, depth - 1)
+                    body = [b for b in body if b[0] != "ret"] or [("asg", x, ("var", x))]
+                out.append(("for", x, it, body))
+                # names first bound in the loop (and the loop variable) are only possibly bound afterwards
             elif r < 0.5:
                 n = rng.choice([1, 2, 2, 3])
                 xs = []
@@ -2521,6 +2559,9 @@ def mini_block_src(stmts, path, ind, instr, out):
             out.append("%sreturn %s" % (p, mini_expr_src(s[1], sp + [0], instr)))
         elif s[0] == "unp":
             out.append("%s%s, = %s" % (p, ", ".join("v%d" % x for x in s[1]), mini_expr_src(s[2], sp + [0], instr)))
+        elif s[0] == "for":
+            out.append("%sfor v%d in %s:" % (p, s[1], mini_expr_src(s[2], sp + [0], instr)))
+            mini_block_src(s[3], sp + [1], ind + 1, instr, out)
         else:
             out.append("%sif %s:" % (p, mini_test_src(s[1])))
             mini_block_src(s[2], sp + [1], ind + 1, instr, out)
@@ -2561,6 +2602,8 @@ def mini_sexp(prog):
             return "(ret %s)" % ex(s[1])
         if s[0] == "unp":
             return "(unp (%s) %s)" % (" ".join(str(x) for x in s[1]), ex(s[2]))
+        if s[0] == "for":
+            return "(for %d %s (%s))" % (s[1], ex(s[2]), " ".join(st(x) for x in s[3]))
         return "(if %s (%s) (%s))" % (tst(s[1]), " ".join(st(x) for x in s[2]), " ".join(st(x) for x in s[3]))
 
     return "(prog (%s) (rets %s) %s)" % (" ".join(V.ty_sexp(t) for t in prog["params"]), " ".join(V.ty_sexp(h[2]) for h in MINI_HELPERS),
@@ -2595,6 +2638,9 @@ def mini_paths(prog, fn_node):
                 ex(s[1], n.value, sp + [0])
             elif s[0] == "unp":
                 ex(s[2], n.value, sp + [0])
+            elif s[0] == "for":
+                ex(s[2], n.iter, sp + [0])
+                blk(s[3], n.body, sp + [1])
             else:
                 blk(s[2], n.body, sp + [1])
                 blk(s[3], n.orelse, sp + [2])
@@ -2707,7 +2753,7 @@ def mini_stream(ctx, progs, with_model=True):
             for objs in argsets:
                 if "'cls'" in repr(objs):
                     continue  # class objects are subscriptable (dict[0] is a GenericAlias): outside the mini semantics
-                if any(k in repr(objs) for k in ("'set'", "'fset'", "'dict'")) and "unp" in repr(p["body"]):
+                if any(k in repr(objs) for k in ("'set'", "'fset'", "'dict'")) and ("'unp'" in repr(p["body"]) or "'for'" in repr(p["body"])):
                     continue  # iteration order of sets / dicts: the Lean semantics fixes the representation order
                 lines.append("run %s (args %s)" % (mini_sexp(p), " ".join(V.obj_sexp(V.canon_obj(o)) for o in objs)))
                 meta.append((p, n, objs))
@@ -2981,6 +3027,8 @@ def mini_from_json(p):
             return ("ret", ex(s[1]))
         if s[0] == "unp":
             return ("unp", list(s[1]), ex(s[2]))
+        if s[0] == "for":
+            return ("for", s[1], ex(s[2]), [st(x) for x in s[3]])
         return ("if", tst(s[1]), [st(x) for x in s[2]], [st(x) for x in s[3]])
 
     out = {"params": [totuple(t) for t in p["params"]], "body": [st(s) for s in p["body"]]}
